@@ -328,6 +328,8 @@ pub fn abs_chunking() -> impl Strategy<Value = AbsChunking> {
         3 => (1u16..40).prop_map(AbsChunking::Uniform),
         4 => prop::collection::vec(prop_oneof![1 => Just(0u16), 6 => 1u16..24, 2 => 24u16..300], 1..40)
             .prop_map(AbsChunking::Random),
+        1 => prop::collection::vec(prop_oneof![2 => 1u16..24, 3 => 300u16..9000, 1 => 9000u16..65535], 1..6)
+            .prop_map(AbsChunking::Random),
         5 => prop::collection::vec((any::<u16>(), 0u8..6), 1..12).prop_map(AbsChunking::Targeted),
     ]
 }
